@@ -435,7 +435,7 @@ def run(tier, seed):
              'starting offsets; each wrapped as Sequence(X, Tell) for the correspondence; oracles compare with the members parsed in '
              'isolation. distinct = (shape, outcome)',
         fragment='theorems hold for every sub-construct (Peek, Pointer, Select, GreedyRange at the loop level)',
-        partial=['Union with a selector: that the final position is the recorded end of the SELECTED member is decided by correspondence and oracle; the theorems cover the frame, Union(None) and what is recorded'])
+        partial=['Union whose selector is computed while parsing (an expression or a function of the members) is decided by correspondence and oracle; constant index and name selectors, Union(None) and the frame have theorems'])
 
 
 def replay(payload):
